@@ -20,7 +20,7 @@ PROPERTY_META = {}
 
 
 def host(crate, file, mod, src, pub=False):
-    HOSTS.append(dict(crate=crate, file=file, mod=mod, src=src, pub=pub))
+    HOSTS.append(dict(crate=crate, file=file, mod=mod, src=src, pub=pub, support=(mod.startswith("verif_") or mod in ("kani_verif_common", "kani_verif_deps", "kani_verif_arb"))))
 
 
 def ob(name, props, crate, harness, **kw):
@@ -219,14 +219,11 @@ def _lk_contract(fn, sig, ens):
     CONTRACTS.append(dict(file=_LK, anchor=r"^pub fn %s\(%s" % (fn, sig), attrs=["kani::ensures(%s)" % ens]))
 _G = "crate::verif_geom::"
 _CL = "(match color { Color::White => 0u8, Color::Black => 1u8 })"
-_lk_contract("rook_moves", "pos: Pos, all_pieces: BitBoard", "|r: &BitBoard| r.to_u64() == %srook_att(pos as u8, all_pieces.to_u64())" % _G)
-_lk_contract("bishop_moves", "pos: Pos, all_pieces: BitBoard", "|r: &BitBoard| r.to_u64() == %sbishop_att(pos as u8, all_pieces.to_u64())" % _G)
 _lk_contract("knight_moves", "pos: Pos", "|r: &BitBoard| r.to_u64() == %sknight_att(pos as u8)" % _G)
 _lk_contract("king_moves", "pos: Pos", "|r: &BitBoard| r.to_u64() == %sking_att(pos as u8)" % _G)
 _lk_contract("rook_rays", "pos: Pos", "|r: &BitBoard| r.to_u64() == %srook_rays_spec(pos as u8)" % _G)
 _lk_contract("bishop_rays", "pos: Pos", "|r: &BitBoard| r.to_u64() == %sbishop_rays_spec(pos as u8)" % _G)
 _lk_contract("between", "a: Pos, b: Pos", "|r: &BitBoard| r.to_u64() == %sbetween_spec(a as u8, b as u8)" % _G)
-_lk_contract("line", "a: Pos, b: Pos", "|r: &BitBoard| r.to_u64() == %sline_spec(a as u8, b as u8)" % _G)
 _lk_contract("distance", "a: Pos, b: Pos", "|r: &u8| *r == %sdistance_spec(a as u8, b as u8)" % _G)
 _lk_contract("pawn_attacks_moves", "pos: Pos, color: Color", "|r: &BitBoard| r.to_u64() == %spawn_att(pos as u8, %s)" % (_G, _CL))
 _lk_contract("pawn_attacks", "pos: Pos, color: Color, all_pieces: BitBoard", "|r: &BitBoard| r.to_u64() == %spawn_att(pos as u8, %s) & all_pieces.to_u64()" % (_G, _CL))
@@ -234,19 +231,20 @@ _lk_contract("pawn_quiets", "pos: Pos, color: Color, all_pieces: BitBoard", "|r:
 _lk_contract("pawn_moves", "pos: Pos, color: Color, all_pieces: BitBoard", "|r: &BitBoard| r.to_u64() == (%spawn_push(pos as u8, %s, all_pieces.to_u64()) | (%spawn_att(pos as u8, %s) & all_pieces.to_u64()))" % (_G, _CL, _G, _CL))
 
 _ATTR = "attribute contract (kani::ensures woven onto the fn, discharged by proof_for_contract, reusable by stub_verified)"
+_HS = "harness-stated contract; reused at call sites through hand-instantiated contract stubs (havoc + assume ensures), full or weakened to the queried square. These three accessors (rook_moves, bishop_moves, line) carry no attribute contract because kani::stub cannot target a function that has one."
 for kind_, fn, spec in (("rook", "rook_moves", "rook_att"), ("bishop", "bishop_moves", "bishop_att")):
     for gi in range(4):
         ob("C08.%s.g%d" % (kind_, gi), ["C08", "C07"], "chess-lookup", "kani_verif_lookup::c08_%s_g%d" % (kind_, gi), kind="complete", flags="safety",
-           timeout=1500, mem_gb=6, functions=["chess_lookup::" + fn], packaging=_ATTR,
+           timeout=1500, mem_gb=6, functions=["chess_lookup::" + fn], packaging=_HS,
            contract="%s(pos, occ) == %s(pos, occ) [ray casting up to and including the first blocker] for squares %d..%d x ALL 2^64 occupancies; table index in range (debug_assert + bounds check)" % (fn, spec, gi * 16, gi * 16 + 15))
     ob("C08.%s.all" % kind_, ["C08"], "chess-lookup", "kani_verif_lookup::c08_%s_all" % kind_, kind="complete", flags="safety", tier="thorough",
-       timeout=3600, mem_gb=10, functions=["chess_lookup::" + fn], packaging=_ATTR,
+       timeout=3600, mem_gb=10, functions=["chess_lookup::" + fn], packaging=_HS,
        contract="%s(pos, occ) == %s(pos, occ) for a symbolic square and ALL 2^64 occupancies in one query" % (fn, spec))
 ob("C08.cover", "C08", "chess-lookup", "kani_verif_lookup::c08_cover", kind="cover", flags="safety", timeout=900, mem_gb=6, contract="vacuity guard")
 ob("C08.negtwin", "C08", "chess-lookup", "kani_verif_lookup::c08_negtwin", kind="negtwin", expect="refuted", flags="safety", timeout=900, mem_gb=6, contract="negated twin (d4): must be refuted")
 PROPERTY_META["C08"] = dict(
     level="proof",
-    explanation="Attribute contracts on the real chess_lookup::rook_moves / bishop_moves (ensures result == ray casting spec), discharged by proof_for_contract for a symbolic square and ALL 2^64 occupancies (quick: 4 square groups per slider in parallel, together covering all 64 squares; thorough: additionally one query). The in-code debug_assert!(index < SOLUTIONS.len()) and the checked table read are obligations of the same harnesses. Strictly stronger than exhausting the <= 2^14 relevant subsets and sampling independence: occupancy is unconstrained.",
+    explanation="Harness-stated contracts on the real chess_lookup::rook_moves / bishop_moves (result == ray casting spec), discharged for a symbolic square and ALL 2^64 occupancies (quick: 4 square groups per slider in parallel, together covering all 64 squares; thorough: additionally one query). The in-code debug_assert!(index < SOLUTIONS.len()) and the checked table read are obligations of the same harnesses. Strictly stronger than exhausting the <= 2^14 relevant subsets and sampling independence: occupancy is unconstrained.",
     assumptions=["release builds replace the checked table read by get_unchecked at the index proved in range (cfg!(debug_assertions) branch)",
                  "generator agreement: the generator's private magic-search `solve` closures are not callable under Kani; table == spec is proved here, generator-solver == spec is by inspection only"],
 )
@@ -260,7 +258,7 @@ _c09 = [("knight", "knight_moves", "knight_att(pos)"), ("king", "king_moves", "k
         ("pawn_moves", "pawn_moves", "pushes | occupied capture squares (64 x 2 x ALL occupancies)")]
 for n, fn, c in _c09:
     ob("C09." + n, ["C09"], "chess-lookup", "kani_verif_lookup::c09_%s_contract" % n, kind="complete", flags="safety", timeout=900, mem_gb=6,
-       functions=["chess_lookup::" + fn], packaging=_ATTR, contract="%s == %s, no wrap-around (spec walks (file,rank) pairs)" % (fn, c))
+       functions=["chess_lookup::" + fn], packaging=(_HS if n == "line" else _ATTR), contract="%s == %s, no wrap-around (spec walks (file,rank) pairs)" % (fn, c))
 ob("C09.constants", "C09", "chess-lookup", "kani_verif_lookup::c09_constants", kind="complete", flags="safety", timeout=900, mem_gb=6,
    functions=["PAWN_DOUBLE_SOURCE", "PAWN_DOUBLE_DEST", "BACKRANK", "BACKRANK_BB", "CASTLE_MOVES", "PAWN_DOUBLE_MOVE", "ROOK_CASTLE_QUEENSIDE", "ROOK_CASTLE_KINGSIDE", "CASTLE_ROOK_START", "CASTLE_ROOK_END", "PROMOTION_RANK", "PAWN_DOUBLE_MOVE_SOURCE_RANK", "PAWN_DOUBLE_MOVE_DEST_RANK", "ADJACENT_FILES", "ADJACENT_RANKS", "KINGSIDE_CASTLE_FILES", "QUEENSIDE_CASTLE_FILES", "KINGSIDE_CASTLE_SAFE_FILES", "QUEENSIDE_CASTLE_SAFE_FILES", "Color::enpassant_capture_rank", "Color::enpassant_pawn_rank"],
    contract="every castling / promotion / double-step / adjacency constant equals its definition in terms of rank and file sets")
@@ -316,6 +314,7 @@ ob("C06.negtwin", "C06", "chess-movegen", "kani_verif_c06::c06_negtwin", kind="n
 
 # =========================================================================== C10 move iterator
 host("chess-movegen", "chess-movegen/src/fen.rs", "kani_verif_fen", "harness/chess-movegen/fen.rs")
+host("chess-movegen", "chess-movegen/src/fen.rs", "kani_verif_fen_helpers", "harness/chess-movegen/fen_helpers.rs")
 host("chess-movegen", "chess-movegen/src/iter.rs", "kani_verif_c10", "harness/chess-movegen/c10.rs")
 host("chess-movegen", "chess-movegen/src/iter/pieces.rs", "kani_verif_c01", "harness/chess-movegen/c01.rs")
 _c10 = [
@@ -479,11 +478,11 @@ PROPERTY_META["C01"] = dict(
 
 # =========================================================================== C05 / C06 FEN
 _FN = "fen::kani_verif_fen::"
-ob("C06.parse_piece", ["C06", "C05"], "chess-movegen", _FN + "c06_parse_piece", kind="complete", flags="full", timeout=900, mem_gb=3, functions=["fen::parse_piece"],
+ob("C06.parse_piece", ["C06", "C05"], "chess-movegen", "fen::kani_verif_fen_helpers::c06_parse_piece", kind="complete", flags="full", timeout=900, mem_gb=3, functions=["fen::parse_piece"],
    contract="ALL byte strings of length <= 3 (it inspects one byte): 12 letters -> (colour, piece), digits 1-8 -> run length, anything else -> None with the input untouched; consumes exactly one byte on success")
-ob("C06.parse_number", ["C06", "C05"], "chess-movegen", _FN + "c06_parse_number", kind="complete", flags="full", timeout=900, mem_gb=3, functions=["fen::parse_number"],
+ob("C06.parse_number", ["C06", "C05"], "chess-movegen", "fen::kani_verif_fen_helpers::c06_parse_number", kind="complete", flags="full", timeout=900, mem_gb=3, functions=["fen::parse_number"],
    contract="ALL byte strings of length <= 6: value of the <= 4 leading digits, exactly those consumed, None iff no leading digit; no overflow")
-ob("C06.parse_small", ["C06", "C05"], "chess-movegen", _FN + "c06_parse_small", kind="complete", flags="full", timeout=900, mem_gb=3, functions=["fen::parse_whitespace", "fen::parse_dash", "fen::parse_castle_rights"],
+ob("C06.parse_small", ["C06", "C05"], "chess-movegen", "fen::kani_verif_fen_helpers::c06_parse_small", kind="complete", flags="full", timeout=900, mem_gb=3, functions=["fen::parse_whitespace", "fen::parse_dash", "fen::parse_castle_rights"],
    contract="ALL byte strings of length <= 5: whitespace run consumed / error iff none; dash; castle letter: consume exactly what their spec says")
 _GROUND = [("standard", "standard position"), ("kiwipete", "kiwipete, all rights, clocks 10/99"), ("ep_white", "e.p. square d6, White to move"), ("ep_black", "e.p. square d3, Black to move"),
            ("rights_kq", "rights Kq, clocks 100/9999, Black to move"), ("rights_qk", "rights Qk, clocks 9/10"), ("runs", "empty runs 1..7, every black piece kind, clocks 1234/567"), ("check", "side to move in check, pinned piece, right K")]
@@ -538,6 +537,11 @@ PROPERTY_META["C07"] = dict(
                  "release profile replaces checked table reads by get_unchecked at indices proved in range"],
     level_note="proof per listed site under Kani's debug-profile semantics; engine/search sites not covered (tool limit)",
 )
+ob("C07.capacity", ["C07"], "chess-movegen", "iter::kani_verif_c10::c07_capacity", kind="ground", flags="safety", timeout=600, mem_gb=2,
+   functions=["iter::MoveList (ArrayVec capacity)", "PROMOTION_PIECES"], contract="MoveList capacity >= 18 = 16 pieces + 2 en-passant capturers (the bound of the Verus counting lemma); four promotion pieces")
+for _o in OBLIGATIONS:
+    if _o["name"] in ("C09.pawn_quiets", "C09.pawn_moves", "C09.pawn_attacks", "C09.pawn_attacks_moves", "C09.knight", "C09.king", "C09.between", "C09.line") and "C07" not in _o["props"]:
+        _o["props"].append("C07")
 for _o in OBLIGATIONS:
     if _o["name"].startswith("C08.") and "C07" in _o["props"]:
         _o.setdefault("prop_tiers", {})["C07"] = "thorough"
@@ -545,3 +549,14 @@ for _o in OBLIGATIONS:
 # properties whose checks are still being brought up are not claimed in MANIFEST.json until they pass on the unchanged tree
 for _p in ("C01", "C05", "C06"):
     PROPERTY_META[_p]["claim"] = False
+
+# C01 quick-tier partition into four slices (each body obligation costs 8-12 min and 5-15 GB)
+_C01_PART = {"knight.nocheck.body": 0, "bishop.check.body": 0, "pawn.skipped": 0, "king.nocheck": 0,
+             "bishop.nocheck.body": 1, "rook.check.body": 1, "knight.skipped": 1, "king.check": 1,
+             "rook.nocheck.body": 2, "queen.check.body": 2, "pawn.nocheck.body": 2, "bishop.skipped": 2,
+             "queen.nocheck.body": 3, "knight.check.body": 3, "pawn.check.body": 3, "rook.skipped": 3, "queen.skipped": 3}
+for _o in OBLIGATIONS:
+    if _o["name"].startswith("C01.") and _o["name"][4:] in _C01_PART:
+        _o["part"] = (_C01_PART[_o["name"][4:]], 4)
+    elif _o["name"].startswith("C01.") and "part" in _o:
+        del _o["part"]
